@@ -171,7 +171,11 @@ var replayTier = "quick"
 var confirmLabel = ""
 
 func runReplayBinary(bin, harness, replayFile, dir string) (*replayOut, error) {
-	cmd := exec.Command(bin, "-test.run", "^TestZZReplay$", "-test.v", "-test.timeout", "120s")
+	limit := 120
+	if strings.HasSuffix(harness, "_race") {
+		limit = 900 // stress runs of every pair of store operations, possibly on a loaded machine
+	}
+	cmd := exec.Command(bin, "-test.run", "^TestZZReplay$", "-test.v", "-test.timeout", fmt.Sprintf("%ds", limit))
 	cmd.Dir = dir
 	cmd.Env = append(os.Environ(), "ZZ_VERIF_REPLAY="+replayFile, "ZZ_HARNESS="+harness, "ZZ_TIER="+replayTier, "GORACE=halt_on_error=1", "ZZ_CONFIRM="+confirmLabel)
 	var buf bytes.Buffer
@@ -184,7 +188,7 @@ func runReplayBinary(bin, harness, replayFile, dir string) (*replayOut, error) {
 	go func() { done <- cmd.Wait() }()
 	select {
 	case <-done:
-	case <-time.After(150 * time.Second):
+	case <-time.After(time.Duration(limit+30) * time.Second):
 		cmd.Process.Kill()
 		return nil, fmt.Errorf("replay timed out")
 	}
